@@ -223,9 +223,15 @@ def run(ctx):
     ok = False
     if flush:
         loops = [s for s in flush[0].body if isinstance(s, ast.For)]
+        # `for <n>, <d> in self._buffer: for <b> in self.backup_callbacks: try: <b>(<n>, <d>) except Exception: ...` - whatever the names
+        def delivers(outer, inner):
+            if not (isinstance(outer.target, ast.Tuple) and len(outer.target.elts) == 2 and isinstance(inner.target, ast.Name)):
+                return False
+            want = f"{inner.target.id}({A.norm(outer.target.elts[0])}, {A.norm(outer.target.elts[1])})"
+            return any(isinstance(y, ast.Try) and y.body and A.norm(y.body[0]) == want and any(h.type is not None and A.norm(h.type) == "Exception" for h in y.handlers)
+                       and not any(isinstance(z, (ast.Raise, ast.Break, ast.Return)) for h in y.handlers for z in A.walk_stmts(h.body)) for y in inner.body)
         ok = len(loops) == 1 and A.norm(loops[0].iter) == "self._buffer" and any(
-            isinstance(x, ast.For) and A.norm(x.iter) == "self.backup_callbacks" and any(isinstance(y, ast.Try) and "bcb(name, doc)" in A.norm(y.body[0]) and
-                                                                                          any(A.norm(h.type) == "Exception" for h in y.handlers) for y in x.body) for x in loops[0].body)
+            isinstance(x, ast.For) and A.norm(x.iter) == "self.backup_callbacks" and delivers(loops[0], x) for x in loops[0].body)
         seq = flush[0].body
         ok = ok and A.norm(seq[-1]) == "self._buffer.clear()"
     ctx.ob("C35.D3-backup-order", cname(cb, None, "flush: every buffered document, in order, to every backup (isolated), then clear"), ok,
